@@ -221,6 +221,8 @@ type fileRewriter struct {
 	addrOf    map[ast.Expr]bool // operand of unary &
 	skipField map[ast.Expr]bool // inner selector of a value-struct chain, or otherwise not to be wrapped
 	recv2     map[*ast.UnaryExpr]bool
+	sharedVar map[*types.Var]string // local variables captured by an escaping closure and written after declaration
+	defLHS    map[*ast.Ident]bool   // identifiers on the left of := (cannot be wrapped)
 	usedVrt, usedVnet bool
 }
 
@@ -324,6 +326,10 @@ func (r *fileRewriter) rewrite() error {
 		}
 		return true
 	})
+
+	if r.cfg.HB {
+		r.findSharedVars()
+	}
 
 	// imports
 	for _, im := range f.Imports {
@@ -494,6 +500,10 @@ var timeForbidden = map[string]bool{"After": true, "AfterFunc": true, "NewTimer"
 
 func (r *fileRewriter) expr(e ast.Expr) ast.Expr {
 	switch x := e.(type) {
+	case *ast.Ident:
+		if r.cfg.HB {
+			return r.varAccess(x)
+		}
 	case *ast.UnaryExpr:
 		if x.Op == token.ARROW {
 			r.stats["recv"]++
@@ -584,6 +594,106 @@ func (r *fileRewriter) expr(e ast.Expr) ast.Expr {
 		}
 	}
 	return e
+}
+
+// findSharedVars finds the local variables (and parameters) that are captured by a closure which
+// may run on another goroutine or later (anything but a function literal that is called on the
+// spot, "go func(){..}()" counting as another goroutine) and that are assigned somewhere after
+// their declaration. Accesses to them are reported to the race monitor like field accesses
+// (vrt.VarR / vrt.VarW), and are scheduling points in executions that ask for it.
+func (r *fileRewriter) findSharedVars() {
+	r.sharedVar = map[*types.Var]string{}
+	r.defLHS = map[*ast.Ident]bool{}
+	type lit struct {
+		n        *ast.FuncLit
+		escaping bool
+	}
+	captured := map[*types.Var]bool{}
+	written := map[*types.Var]bool{}
+	var stack []ast.Node
+	var lits []lit
+	var fn string
+	ast.Inspect(r.file, func(n ast.Node) bool {
+		if n == nil {
+			top := stack[len(stack)-1]
+			stack = stack[:len(stack)-1]
+			if fl, ok := top.(*ast.FuncLit); ok && len(lits) > 0 && lits[len(lits)-1].n == fl {
+				lits = lits[:len(lits)-1]
+			}
+			return true
+		}
+		switch x := n.(type) {
+		case *ast.FuncDecl:
+			fn = x.Name.Name
+		case *ast.FuncLit:
+			esc := true
+			if len(stack) > 0 {
+				if c, ok := stack[len(stack)-1].(*ast.CallExpr); ok && c.Fun == ast.Expr(x) {
+					esc = false
+					if len(stack) > 1 {
+						if _, isGo := stack[len(stack)-2].(*ast.GoStmt); isGo {
+							esc = true
+						}
+					}
+				}
+			}
+			lits = append(lits, lit{x, esc})
+		case *ast.AssignStmt:
+			if x.Tok == token.DEFINE {
+				for _, l := range x.Lhs {
+					if id, ok := l.(*ast.Ident); ok {
+						r.defLHS[id] = true
+					}
+				}
+			}
+		case *ast.Ident:
+			v, ok := r.info.Uses[x].(*types.Var)
+			if !ok || v.IsField() || v.Pkg() != r.pkg || v.Parent() == nil || v.Parent() == r.pkg.Scope() {
+				break
+			}
+			if isSyncType(v.Type()) {
+				break
+			}
+			if r.lhs[x] && !r.defLHS[x] {
+				written[v] = true
+			}
+			for _, l := range lits {
+				if l.escaping && (v.Pos() < l.n.Pos() || v.Pos() > l.n.End()) {
+					captured[v] = true
+					if _, seen := r.sharedVar[v]; !seen {
+						r.sharedVar[v] = "var:" + fn + "." + v.Name()
+					}
+				}
+			}
+		}
+		stack = append(stack, n)
+		return true
+	})
+	for v := range r.sharedVar {
+		if !captured[v] || !written[v] {
+			delete(r.sharedVar, v)
+		}
+	}
+}
+
+func (r *fileRewriter) varAccess(x *ast.Ident) ast.Expr {
+	if len(r.sharedVar) == 0 || r.defLHS[x] || r.addrOf[x] {
+		return x
+	}
+	v, ok := r.info.Uses[x].(*types.Var)
+	if !ok {
+		return x
+	}
+	nm, ok := r.sharedVar[v]
+	if !ok {
+		return x
+	}
+	fn := "VarR"
+	if r.lhs[x] {
+		fn = "VarW"
+	}
+	r.stats["var"+fn[3:]]++
+	return &ast.StarExpr{X: call(r.vrt(fn), &ast.UnaryExpr{Op: token.AND, X: x}, str(nm))}
 }
 
 func isListPtr(t types.Type) bool {
